@@ -57,5 +57,33 @@ package service
 //@      let bal1 := (slashed ? bankBurn(old(bal), depositAcc, burn) : old(bal)) in
 //@      supply == (slashed ? supplyBurn(old(supply), burn) : old(supply)) &&
 //@      bal == (canPay(bal1, requestAcc, request.ServiceFee) ? bankMove(bal1, requestAcc, request.Consumer, request.ServiceFee) : bal1))
+//@ ensures [C15] binding_is_never_deleted: bindFound(raw, request.ServiceName, request.Provider)
 //@ ensures [C16,C15] touches_only_the_binding_and_the_two_markers: forall k Key :: {raw[k]}
 //@      (k != KBind(request.ServiceName, request.Provider) && k != KActID(requestID) && k != KActB(request.ServiceName, request.Provider, request.ExpirationHeight, requestID)) ==> raw[k] == old(raw)[k]
+
+// EndBlocker$2 = expiredRequestBatchHandler(requestContextID, requestContext): called for every entry of the expiry queue at this height.
+//@ func EndBlocker$2
+//@ props C16 C11 C10 C09 C12 C08 C02 C04
+//@ modifies raw, bal, supply, cblog
+//@ preserves wf: WF(raw)
+//@ preserves [C03] deposits_in_custody: depInv(raw, bal)
+//@ requires called_with_the_stored_context: ctxFound(raw, requestContextID) && requestContext == ctxOf(raw, requestContextID) && rng_RequestContext(requestContext)
+//@ requires [C16] pending_requests_are_well_formed: actInv(raw)
+//@ loop IterateActiveRequests.0 invariant pos_in_range: 0 <= iterator_pos && iterator_pos <= itCount(iterator_snap, iterator_pfx)
+//@ loop IterateActiveRequests.0 invariant snapshot: iterator_snap == old(raw) && iterator_pfx == PActByCtx(requestContextID, batchCounter) && batchCounter == old(requestContext).BatchCounter && cblog == old(cblog)
+//@ loop IterateActiveRequests.0 invariant wf: WF(raw) && depInv(raw, bal)
+//@ loop IterateActiveRequests.0 invariant records_untouched: forall k Key :: {raw[k]} (!is_KBind(k) && !is_KActB(k) && !is_KActID(k)) ==> raw[k] == iterator_snap[k]
+//@ loop IterateActiveRequests.0 invariant bindings_stay: forall s Str, p Bytes :: {raw[KBind(s, p)]} bindFound(iterator_snap, s, p) ==> bindFound(raw, s, p)
+//@ loop IterateActiveRequests.0 invariant markers_expired_so_far: forall k Key :: {raw[k]} is_KActID(k) ==> raw[k] ==
+//@      ((inPfx(k, iterator_pfx) && iterator_snap[k] != bnil && itIdx(iterator_snap, iterator_pfx, k) < iterator_pos) ? bnil : iterator_snap[k])
+//@ ensures [C11] expiry_entry_consumed: raw[KExpQ(ctxHeight(ctx), requestContextID)] == bnil && raw[KExpH(requestContextID)] == bnil
+//@ ensures [C10,C11] next_batch_scheduled_frequency_after_this_batch_started: (let rc := requestContext in
+//@      rc.State == RUNNING && rc.Repeated && (rc.RepeatedTotal < 0 || wrap_i64(rc.BatchCounter) < rc.RepeatedTotal) ==>
+//@      (let next := wrap_i64(wrap_i64(ctxHeight(ctx) - rc.Timeout) + wrap_i64(rc.RepeatedFrequency)) in raw[KNewQ(next, requestContextID)] == idVal(requestContextID) && raw[KNewH(requestContextID)] == hVal(next)))
+//@ ensures [C16,C09,C10] context_removed_exactly_when_finished: (let rc := requestContext in
+//@      let finished := rc.State == COMPLETED || (rc.State == RUNNING && !(rc.Repeated && (rc.RepeatedTotal < 0 || wrap_i64(rc.BatchCounter) < rc.RepeatedTotal))) in
+//@      raw[KCtx(requestContextID)] == (finished ? bnil : enc_RequestContext(rc[BatchState := BATCHCOMPLETED])))
+//@ ensures [C16] batch_request_records_removed: forall rid Bytes :: {raw[KReq(rid)]} ridCtx(rid) == requestContextID && ridBatch(rid) == requestContext.BatchCounter ==> raw[KReq(rid)] == bnil
+//@ ensures [C16,C08] no_request_of_the_batch_stays_pending: requestContext.BatchState != BATCHCOMPLETED ==>
+//@      (forall rid Bytes :: {raw[KActID(rid)]} ridCtx(rid) == requestContextID && ridBatch(rid) == requestContext.BatchCounter ==> raw[KActID(rid)] == bnil)
+//@ ensures [C12] callback_once_if_the_batch_was_still_open: (let rc := requestContext in requestContext.BatchState == BATCHCOMPLETED || len(rc.ModuleName) == 0 ==> cblog == old(cblog))
